@@ -554,6 +554,11 @@ theorem dump_writes_only_crown_keys (cfg : DumpCfg) (obj vals : List (String × 
   obtain ⟨c, hc⟩ := dumpDict_keys_subset cfg obj vals s m k' v hmem
   exact List.mem_map.mpr ⟨(k', c), hc, rfl⟩
 
+/-- every gap of an output crown built by the layout provider carries the placeholder `None` -/
+theorem provider_gap_placeholders_are_none (sch : Schema) (style : Style → String → String) (fields : List Field)
+    (l : OutLayout) (h : outputLayout sch style fields = .ok l) : l.crown.gapsNone = true :=
+  outputLayout_gapsNone sch style fields l h
+
 /-- **List layouts fill gaps with `None`**: a list node is dumped to a list of exactly the length of
     the crown's map, whose positions that no field is mapped to hold the placeholder. -/
 theorem list_gaps_are_none (cfg : DumpCfg) (obj vals : List (String × Val)) (m : List OutCrown) (i : Nat)
